@@ -20,6 +20,7 @@ import MysyncModel.Replay.C19
 import MysyncModel.Replay.C10
 import MysyncModel.Replay.Zk
 import MysyncModel.Replay.Sim
+import MysyncModel.Replay.Obs
 
 open Lean Replay
 
@@ -42,7 +43,8 @@ def handlers : List (String × Handler) := [
   ("c19sync", Replay.C19.handle),
   ("c10pass", Replay.C10.handle),
   ("zkhist", Replay.ZkH.handle),
-  ("simrun", Replay.Sim.handle)
+  ("simrun", Replay.Sim.handle),
+  ("obs", Replay.Obs.handle)
 ]
 
 partial def loop (h : IO.FS.Stream) (seen : Std.HashSet UInt64) (a : Acc) : IO Acc := do
